@@ -53,11 +53,17 @@ func (c *serverCodec) Messages() socket.Messages {
 	return c.messages
 }
 
-func (c *serverCodec) ReadRequestHeader(ctx *Context) error {
+func (c *serverCodec) ReadRequestHeader(ctx *Context) (err error) {
 	if atomic.LoadUint32(&c.closed) > 0 {
 		return io.EOF
 	}
-	var err error
+	defer func() {
+		// the header decoders index into the frame without bounds checks:
+		// a truncated or corrupted frame is an error, not a crash
+		if r := recover(); r != nil {
+			err = errors.New("rpc: malformed request header")
+		}
+	}()
 	var data = ctx.data
 	if c.headerEncoder != nil {
 		req := c.headerEncoder.NewRequest()
